@@ -84,6 +84,7 @@ def filter_case(cfg, events, descr=None):
 
 
 ADVERSARIAL = [
+    "M206 X2 Y Z0.25", "M206 X-2.5 Y=3", "M206", "M206 Z", "G92 X Y1", "G92 E", "G92 E1 X", "G28 X0 Y", "G10 P", "G11 (x)",
     "G1 X30 Y40 Z2 E5 F1500 X35", "G1 F1200 E2 Z1 Y12 X12 Y31 E3", "G0 X1 Y1 Z1 E1 F100 Z0.5 F200",
     "G1", "G0 X", "G1 X Y5", "G1 X5 X15", "G1 X15 Y15 X5", "G1 Z", "G1 E", "G1 F", "G1 X+15 Y-0",
     "G1 X.5 Y5.", "G1 X1e3", "G1 X15Y15", "g1 x15 y15", "G1 X15 Y15 ; c", "G1 X 15 Y 15",
@@ -126,7 +127,7 @@ def gen_filter_case(r, adversarial=False, offsets=False):
         ops = gen.gen_episode_path(r, regions, opts)
     else:
         ops = gen.gen_path(r, regions, opts)
-    evs = gen.encode_path(ops)
+    evs = gen.encode_path(ops, nolead=(r.random() < 0.15))
     if adversarial:
         # sprinkle adversarial commands (may leave the dialect the theorems are about)
         k = r.randint(1, 8)
@@ -920,7 +921,9 @@ def gen_two_prints(r):
             ops.append(c)
         else:
             ops.append(("gcode", c, impl.split_cmd(c)[0]))
-    ops.append(("event", r.choice(["PRINT_DONE", "PRINT_FAILED", "PRINT_CANCELLED", "PRINT_CANCELLING"])))
+    if r.random() < 0.8:
+        ops.append(("event", r.choice(["PRINT_DONE", "PRINT_FAILED", "PRINT_CANCELLED", "PRINT_CANCELLING"])))
+    # else: the job is started again without any end event in between (e.g. a paused job restarted)
     if r.random() < 0.4:
         # between the prints nothing is filtered or tracked, whatever state the first print ended in
         for c in r.sample(["G1 X50 Y50 F3000", "G1 X15 Y15", "G1 E5", "M117 idle", "G28"], r.randint(1, 3)):
